@@ -115,6 +115,19 @@ func (e *Engine) gorMain(g *Gor) {
 		case nil:
 		case pathAbort:
 			return
+		case goexitSignal:
+			// runtime.Goexit: the deferred calls have run, the goroutine ends like one that returned
+			func() {
+				defer func() {
+					if r2 := recover(); r2 != nil {
+						if _, ok := r2.(pathAbort); !ok {
+							e.endPath(pathResult{kind: "engine", msg: fmt.Sprintf("host panic while a goroutine exits: %v", r2)})
+						}
+					}
+				}()
+				e.exitGor(g)
+			}()
+			return
 		case targetPanic:
 			e.endPath(pathResult{kind: "panic", msg: fmt.Sprintf("uncaught panic in goroutine %d: %s", g.id, e.panicString(r.v)), gor: g.id})
 			return
